@@ -518,7 +518,7 @@ class Timing:
                      + "; ".join(f"{e.kind} {exc_name(e.value) if e.kind == 'raise' else ''} if {cond_str(e.cond)[:80]}" for e in ex))
                 continue
             v = ex[0].value
-            if not (v[0] == "call" and v[1][0] == "closure"):
+            if not (v[0] == "call" and v[1][0] in ("closure", "func") and ".<locals>." in v[1][1]):
                 fail(r, ctx, bf, ex[0].node, f"dispatch for {c.name} does not call a per-kind fold helper: {show(v)[:200]}")
                 continue
             helper = ctx.prog.functions.get(v[1][1])
